@@ -37,5 +37,7 @@ def main(tier):
                            "numbering and the merging of sphere blocks are NOT decided (DESIGN.md §4 C18)")
     rep.explanation = ("Layout agreement between gwb-grid's request list, the library's width table, the output offsets stored "
                        "into each VTU data set, dataSetInfo and filter_vtu_mesh's literal indices; same-index provenance of node "
-                       "position and depth; parallel-loop discipline; structure of the mesh filter.")
+                       "position and depth; parallel-loop discipline; structure of the mesh filter; closed forms of the Cartesian, chunk and "
+                       "annulus meshes (node lattice, conversion, connectivity) and of the sphere block patch / projection; block structure of "
+                       "the base64 and zlib encoders.")
     return rep.finish()
